@@ -260,8 +260,8 @@ func c02DefectApplicable(cf c02JWTConf, s c02TokSpec) bool {
 func c02GenJWTConf(t *rapid.T) c02JWTConf {
 	var cf c02JWTConf
 	cf.claimKey = rapid.SampledFrom([]string{"mediamtx_permissions", "perms", "https://example.com/claims/mtx", "a.b"}).Draw(t, "claimKey")
-	cf.issuer = rapid.SampledFrom([]string{"", "", "https://issuer.example", "issuer"}).Draw(t, "issuer")
-	cf.audience = rapid.SampledFrom([]string{"", "", "mediamtx", "https://media.example/"}).Draw(t, "audience")
+	cf.issuer = rapid.SampledFrom([]string{"", "https://issuer.example", "issuer"}).Draw(t, "issuer")
+	cf.audience = rapid.SampledFrom([]string{"", "mediamtx", "https://media.example/"}).Draw(t, "audience")
 	cf.httpQuery = rapid.SampledFrom([]string{"nil", "true", "true", "false"}).Draw(t, "httpQuery")
 	cf.exclude = c02GenPerms(t, "exclude.", 2)
 	n := rapid.IntRange(1, 3).Draw(t, "nkeys")
@@ -286,14 +286,20 @@ func c02GenTokSpec(t *rapid.T, l string, cf c02JWTConf, aim *c02Perm) c02TokSpec
 	if aim != nil && rapid.IntRange(0, 3).Draw(t, l+"aimGrant") > 0 {
 		s.perms = append(s.perms, *aim)
 	}
-	s.defect = rapid.SampledFrom(c02Defects).Draw(t, l+"defect")
+	// only defects that exist under this configuration (e.g. a wrong issuer needs a configured issuer)
+	var applicable []string
+	for _, d := range c02Defects {
+		probe := s
+		probe.defect = d
+		if c02DefectApplicable(cf, probe) {
+			applicable = append(applicable, d)
+		}
+	}
+	s.defect = rapid.SampledFrom(applicable).Draw(t, l+"defect")
 	s.variant = rapid.IntRange(0, 1023).Draw(t, l+"variant")
 	s.audForm = rapid.SampledFrom([]string{"string", "array"}).Draw(t, l+"audForm")
 	s.extraIss = rapid.Bool().Draw(t, l+"extraIss")
-	if !c02DefectApplicable(cf, s) {
-		s.defect = "none"
-	}
-	if s.defect == "unknown-kid-outsider" || s.defect == "kid-of-other-key" {
+	if s.defect == "unknown-kid-outsider" {
 		s.kid = "right"
 	}
 	return s
